@@ -50,9 +50,19 @@ S0 == [ eph |-> <<>>,            \* ephemeral configuration as committed (Junos!
         faulted |-> FALSE, updated |-> {}, deleted |-> {}, nloads |-> 0, irrmode |-> "ok", prevOk |-> FALSE,
         twin |-> FALSE, style |-> "", twinOk |-> FALSE, twinEnd |-> <<>> ]   \* C13: the same run, replies serialised differently
 
+(* the route-filters (as written) of the accepting terms of a policy that match family f *)
+AcceptFilters(P, f) == UNION {SeqSet(P.terms[k].filters) : k \in {k \in 1..Len(P.terms) : P.terms[k].accept /\ TermMatchesFamily(P.terms[k], f)}}
+(* boundary values (the default route, 0.0.0.0/0 up to /24, host routes) lie outside the denotation universes: for *)
+(* such policies the scenario says which route-filters are expected, literally                                     *)
+Exact(x) == "filters4" \in DOMAIN x
+Within4(P, x, d) == IF Exact(x) THEN AcceptFilters(P, "inet") \subseteq ToSet(x.filters4) ELSE AcceptAtoms(P, "inet", d) \subseteq ToSet(x.v4)
+Within6(P, x, d) == IF Exact(x) THEN AcceptFilters(P, "inet6") \subseteq ToSet(x.filters6) ELSE AcceptAtoms(P, "inet6", d) \subseteq ToSet(x.v6)
+Equal4(P, x, d) == IF Exact(x) THEN AcceptFilters(P, "inet") = ToSet(x.filters4) ELSE AcceptAtoms(P, "inet", d) = ToSet(x.v4)
+Equal6(P, x, d) == IF Exact(x) THEN AcceptFilters(P, "inet6") = ToSet(x.filters6) ELSE AcceptAtoms(P, "inet6", d) = ToSet(x.v6)
+Beyond(P, x, d) == ~Exact(x) /\ AcceptsOutsideUniverse(P, d)
 Pol(exp, n) == exp.policies[n]
 Known(exp, n) == Has(exp, "policies") /\ n \in DOMAIN exp.policies
-Acked(e) == e.fault \in {"none", "close-after"}      \* the reply that was sent is a positive one
+Acked(e) == e.fault \in {"none", "close-after", "late-ok"}      \* the reply that was sent is a positive one (late-ok: after the next request's)
 Mut(e) == Has(e, "mutated") /\ e.mutated            \* the router executed the request, its reply was damaged (C14)
 Executed(e) == Acked(e) \/ Mut(e)
 Effective(e) == ~Has(e, "effective") \/ e.effective    \* a commit that is neither <check/> nor <confirmed/>
@@ -70,6 +80,9 @@ ReqViol(st, e, staged1) ==
   (IF k = "commit" /\ ~st.loadsAcked THEN {V("C04", "CommitAlthoughALoadWasNotAcknowledged", "", e)} ELSE {})
   \cup
   (IF k = "load" /\ ~e.db_open THEN {V("C04", "LoadWithoutOpenDatabase", "", e)} ELSE {})
+  \cup
+  (* the commit was requested before every load of the run had been acknowledged - this one had not even been sent *)
+  (IF k = "load" /\ st.commitSeen THEN {V("C04", "CommitBeforeEveryLoadOfTheRun", "", e)} ELSE {})
   \cup
   (IF k = "load" THEN
      (IF e.update.foreign # <<>> THEN {V("C02", "WritesOutsidePolicyStatements", e.update.foreign[1], e)} ELSE {})
@@ -94,11 +107,11 @@ ReqViol(st, e, staged1) ==
                    x == Pol(st.expect, n) IN
                (IF FailOpen(P) THEN {V("C02", "FailOpenPolicy",
                         IF ~P.reject THEN "no trailing reject" ELSE "accepting term without family or route-filter", e)} ELSE {})
-               \cup (IF ~(AcceptAtoms(P, "inet", d) \subseteq ToSet(x.v4))
+               \cup (IF ~Within4(P, x, d)
                      THEN {V("C02", "AcceptsOutsideEvaluatedSet", "inet", e)} ELSE {})
-               \cup (IF ~(AcceptAtoms(P, "inet6", d) \subseteq ToSet(x.v6))
+               \cup (IF ~Within6(P, x, d)
                      THEN {V("C02", "AcceptsOutsideEvaluatedSet", "inet6", e)} ELSE {})
-               \cup (IF AcceptsOutsideUniverse(P, d) THEN {V("C02", "AcceptsRangesBeyondTheEvaluatedOnes", "", e)} ELSE {})
+               \cup (IF Beyond(P, x, d) THEN {V("C02", "AcceptsRangesBeyondTheEvaluatedOnes", "", e)} ELSE {})
                \cup (IF x.expr # "" /\ p.expr # x.expr
                      THEN {V("C16", "ExpressionUsedDiffersFromTheAnnotation", x.why, e)} ELSE {})))
        : i \in 1..Len(e.update.policies)}
@@ -116,13 +129,13 @@ ReqStep(st, e) ==
         !.opened = @ \/ k = "open",
         !.openAcked = @ \/ (k = "open" /\ Acked(e)),
         !.loadsAcked = IF k = "load" /\ ~Acked(e) THEN FALSE ELSE @,
-        !.failed = @ \/ (e.fault \notin {"none", "close-after", "delayed-error"}),
+        !.failed = @ \/ (e.fault \notin {"none", "close-after", "delayed-error", "late-ok"}),
         \* closing the connection after the <ok/> to close-session is what every server does
-        !.faulted = @ \/ (e.fault # "none" /\ ~(k = "close-session" /\ e.fault = "close-after")),
+        !.faulted = @ \/ (e.fault \notin {"none", "late-ok"} /\ ~(k = "close-session" /\ e.fault = "close-after")),
         !.commitSeen = @ \/ k = "commit",
         !.commitAcked = @ \/ (k = "commit" /\ Acked(e) /\ Effective(e)),
-        !.eph = IF k = "commit" /\ (e.fault = "none" \/ Mut(e)) /\ Effective(e) THEN staged1 ELSE @,
-        !.closeDbAcked = @ \/ (k = "close-db" /\ Acked(e) /\ e.fault = "none"),
+        !.eph = IF k = "commit" /\ (e.fault \in {"none", "late-ok"} \/ Mut(e)) /\ Effective(e) THEN staged1 ELSE @,
+        !.closeDbAcked = @ \/ (k = "close-db" /\ Acked(e) /\ e.fault \in {"none", "late-ok"}),
         !.closeSessAcked = @ \/ (k = "close-session" /\ Acked(e)),
         !.updated = @ \cup names, !.deleted = @ \cup dels,
         !.nloads = IF k = "load" THEN @ + 1 ELSE @]
@@ -157,10 +170,9 @@ EndViol(st, e) ==
      IF x.sel /\ x.eval = "ok"
      THEN (IF n \notin names THEN {V(IF exp.prop \in {"C15", "C11", "C17"} THEN exp.prop ELSE "C01", "ManagedPolicyMissingAfterSuccessfulRun", "", e)}
            ELSE LET P == Get(st.eph, n) IN
-             (IF AcceptAtoms(P, "inet", d) # ToSet(x.v4) \/ AcceptAtoms(P, "inet6", d) # ToSet(x.v6)
-                 \/ AcceptsOutsideUniverse(P, d) \/ FailOpen(P)
+             (IF ~Equal4(P, x, d) \/ ~Equal6(P, x, d) \/ Beyond(P, x, d) \/ FailOpen(P)
               THEN {V(IF exp.prop \in {"C15", "C11", "C17"} THEN exp.prop ELSE "C01", "InstalledFilterDiffersFromEvaluatedSet",
-                      IF AcceptAtoms(P, "inet", d) # ToSet(x.v4) THEN "inet" ELSE "inet6/other", e)} ELSE {})
+                      IF ~Equal4(P, x, d) THEN "inet" ELSE "inet6/other", e)} ELSE {})
              \cup (IF ~Readable(P) THEN {V("C01", "InstalledStateNotReadableByTheAgent", "", e)} ELSE {}))
      ELSE IF x.eval = "either"
      THEN (* C17: its evaluation may have met the transient error; if it is installed it must be right (an error   *)
@@ -180,8 +192,11 @@ EndViol(st, e) ==
      : n \in (IF Has(exp, "policies") THEN DOMAIN exp.policies ELSE {})}
   \cup (IF Has(exp, "max_transient_failures") THEN
           LET eithers == {n \in DOMAIN exp.policies : exp.policies[n].eval = "either"}
-              bad == {n \in eithers : n \notin names \/ AcceptAtoms(Get(st.eph, n), "inet", d) # ToSet(Pol(exp, n).v4)
-                                                      \/ AcceptAtoms(Get(st.eph, n), "inet6", d) # ToSet(Pol(exp, n).v6)}
+              (* left out altogether; one that is installed is judged on its own above (whole, or - where the error  *)
+              (* is one the evaluator sinks - without that family).  How many policies share a sunk error is not     *)
+              (* judged: an agent may hand the successful evaluation of an expression to the other policies that      *)
+              (* carry the same expression, which the property does not forbid                                        *)
+              bad == {n \in eithers : n \notin names}
           IN IF Cardinality(bad) > exp.max_transient_failures
              THEN {V(exp.prop, "MoreEvaluationsAffectedThanErrorsInjected",
                      "policies with the same expression, one transient IRR error", e)} ELSE {}
